@@ -4,6 +4,7 @@ package main
 import (
 	"bytes"
 	"encoding/hex"
+	"errors"
 	"fmt"
 	fixgen "github.com/b2broker/simplefix-go/tests/fix44"
 	"math/rand"
@@ -302,7 +303,7 @@ func soup(r *rand.Rand, tg *target) []byte {
 
 func main() {
 	c := vk.Init("C11")
-	c.Rule("inputs: (a) every string of length 0..3 over {8,9,=,SOH,1,0,x} (exhaustive, 400 strings); (b) field soups built from the target template's own tags (missing '=', empty fields, repeated SOH, group counts without followers / with wrong counts / wrong first tags, CheckSum tag in the middle) and then frame-fixed by the reference encoder so that they pass the integrity check and reach field and group parsing; (c) byte-level mutations of valid library output; (d) coverage-guided inputs from go test -fuzz (iteration-bounded). Each input is parsed strict and non-strict into every tests/fix44 type and generated templates with nested groups, as an exact-capacity slice and again embedded in a larger buffer with an adversarial tail (results must agree), and looked up with ValueByTag; a sample of the soups (also re-typed as administrative messages) is fed to running sessions of both roles through ServeIncoming, where a panic in the handler loop is recorded. distinct = hash(input, target); non-trivial = the input passes the integrity check (CheckFrame) or is shorter than a framing tag; (f) every all-digit field of valid generated messages given each of 26 hostile values (negative, signed, padded, empty, beyond 32/63/64 bits, exponent/hex/non-ASCII digits), with the frame left as it is and with BodyLength/CheckSum recomputed around the value; (g) the same 26 values in the numeric fields of well-formed ResendRequest / TestRequest / Heartbeat / SequenceReset / Logon messages fed to logged-on sessions with stored messages; (h) byte streams through real connections (scripted net.Conn -> the library's stream reader -> handler -> session) of both roles, before and after logon, in one piece and cut into random segments: every string of length 0..3 over the alphabet of (a) placed at the start of the stream, inside the framing fields, just before the checksum digits and after a complete message, and field soups raw / frame-fixed / re-typed as administrative messages / with deleted, doubled and replaced bytes, each followed by a valid message; a panic in a goroutine of the library ends the workload process, which is the violation")
+	c.Rule("inputs: (a) every string of length 0..3 over {8,9,=,SOH,1,0,x} (exhaustive, 400 strings); (b) field soups built from the target template's own tags (missing '=', empty fields, repeated SOH, group counts without followers / with wrong counts / wrong first tags, CheckSum tag in the middle) and then frame-fixed by the reference encoder so that they pass the integrity check and reach field and group parsing; (c) byte-level mutations of valid library output; (d) coverage-guided inputs from go test -fuzz (iteration-bounded). Each input is parsed strict and non-strict into every tests/fix44 type and generated templates with nested groups, as an exact-capacity slice and again embedded in a larger buffer with an adversarial tail (results must agree), and looked up with ValueByTag; a sample of the soups (also re-typed as administrative messages) is fed to running sessions of both roles through ServeIncoming, where a panic in the handler loop is recorded. distinct = hash(input, target); non-trivial = the input passes the integrity check (CheckFrame) or is shorter than a framing tag; (f) every all-digit field of valid generated messages given each of 26 hostile values (negative, signed, padded, empty, beyond 32/63/64 bits, exponent/hex/non-ASCII digits), with the frame left as it is and with BodyLength/CheckSum recomputed around the value; (g) the same 26 values in the numeric fields of well-formed ResendRequest / TestRequest / Heartbeat / SequenceReset / Logon messages fed to logged-on sessions with stored messages; (i) random histories (2..8 steps) over the alphabet of good / refused / damaged Logons, Logout, Heartbeat, TestRequest, ResendRequests, application and unknown types through sessions of both roles (panic oracle only); (h) byte streams through real connections (scripted net.Conn -> the library's stream reader -> handler -> session) of both roles, before and after logon, in one piece and cut into random segments: every string of length 0..3 over the alphabet of (a) placed at the start of the stream, inside the framing fields, just before the checksum digits and after a complete message, and field soups raw / frame-fixed / re-typed as administrative messages / with deleted, doubled and replaced bytes, each followed by a valid message; a panic in a goroutine of the library ends the workload process, which is the violation")
 	c.Assume("a panic is caught by recover in the calling goroutine; fatal errors kill the child, which the orchestrator reports as a violation with the input last logged to disk")
 	tgs := targets(c)
 	nSoup := c.Pick(24000, 700000) // per run, spread over targets
@@ -658,6 +659,60 @@ func main() {
 				return
 			}
 		}
+	})
+	// (i) histories of well-formed and damaged administrative messages (the alphabet of the logon checks: good, refused
+	// and damaged Logons, Logout, Heartbeat, TestRequest, ResendRequests, application and unknown types) through
+	// sessions of both roles: whatever the order, the inbound path does not panic
+	symbols := rig.Alphabet()
+	var inbound []rig.Sym
+	for _, sy := range symbols {
+		if !sy.Local {
+			inbound = append(inbound, sy)
+		}
+	}
+	nHist := c.Pick(1200, 40000)
+	vk.Parallel(nHist, nw, func(i int) {
+		r := c.Rand("c11-histories", int64(i))
+		role := rig.Role(i % 2)
+		lim := [2]int{5, 60}
+		rg, err := rig.NewStepRig(rig.StepCfg{Role: role, HeartBtInt: 30, Limits: &session.IntLimits{Min: lim[0], Max: lim[1]}, SentinelBarrier: true,
+			OnLogon: func(ls *session.LogonSettings) error {
+				if !rig.Approve(ls.Username, ls.Password) {
+					return errors.New("refused")
+				}
+				return nil
+			}})
+		if err != nil {
+			return
+		}
+		defer rg.Close()
+		p := rig.NewPeer()
+		n := 2 + r.Intn(7)
+		var names []string
+		for k := 0; k < n; k++ {
+			sy := inbound[r.Intn(len(inbound))]
+			if r.Intn(3) == 0 {
+				sy = inbound[r.Intn(4)] // acceptable Logons more often: logged-on phases, re-logons
+			} else if r.Intn(4) == 0 {
+				for _, x := range inbound {
+					if x.Name == "Logout" {
+						sy = x
+					}
+				}
+			}
+			names = append(names, sy.Name)
+			data := sy.Build(p, lim)
+			res := rg.Inbound(data)
+			c.Count("session_inbound_history_steps", 1)
+			if res.Panic != "" {
+				c.Violate("C11/panic-in-session-inbound-path/"+panicClass(strings.SplitN(res.Panic, "\n", 2)[0], res.Panic), fmt.Sprintf("%s session: the inbound path panicked at the last step of the history [%s]:\n%s", role, strings.Join(names, " "), vk.Trunc(res.Panic, 1500)), map[string]interface{}{"history": names, "role": role.String(), "last_input_hex": hex.EncodeToString(data)})
+				return
+			}
+			if res.RunEnded || res.TimedOut {
+				break
+			}
+		}
+		c.Eval(vk.Hash64([]byte("history"), []byte(role.String()), []byte(strings.Join(names, " "))), true)
 	})
 	// (h) hostile byte streams through real connections of both roles
 	connStreams(c, tgs, nw)
